@@ -102,6 +102,55 @@ def debugger_histories(rng, n, spec_failures, dist):
     return sessions
 
 
+AFTER_END = [
+    ("INC(R1, 1)\nINC(R2, 1)\n", ["c", "c", "n", "s", "continue", "next 3"]),                    # runs off the end
+    ("INC(R1, 1)\nBRR(-3)\nINC(R2, 1)\nINC(R3, 1)\n", ["n", "n", "c", "c", "s", "n"]),          # leaves at the front (pc = -2)
+    ("INC(R1, 1)\nBRR(-2)\nINC(R2, 1)\n", ["c", "c", "n"]),                                      # pc = -1
+    ("SET(R1, 1)\nLABEL(end)\n", ["goto end", "c", "n", "s"]),                                    # goto the label after the last op
+    ("SET(R1, 100)\nBR(R1)\nNOP()\nNOP()\n", ["c", "c", "s", "n"]),                              # register branch past the end
+    ("SET(R1, 0xFFF0)\nBR(R1)\nNOP()\n", ["n", "n", "n", "c", "c"]),
+    ("NOP()\nNOP()\nNOP()\n", ["pc = 7", "c", "pc = -2", "c", "n", "pc = 65535", "s"]),
+    ("NOP()\nHALT()\nNOP()\n", ["c", "c", "n", "s", "restart", "c", "c"]),
+]
+
+
+def after_the_end(spec_failures, dist):
+    """Commands that keep going once control has left the program: no exception, nothing fetched outside the
+    program, machine still well-formed (seed C02d: `continue` lost its finished() guard)."""
+    import dbgcases as dc
+    from runcases import WatchedCode
+    for text, cmds in AFTER_END:
+        for opts in ({"big_stack": False, "init": [], "warn_return_on": True},
+                     {"big_stack": True, "init": [], "warn_return_on": False}):
+            rs = dc.RealSession(text, opts)
+            if not rs.ok:
+                continue
+            dbg = rs.shell.debugger
+            watched = WatchedCode(dbg.program.code)
+            try:
+                dbg.program = dbg.program._replace(code=watched)
+            except Exception:  # noqa
+                pass
+            dist["debugger_sessions"] += 1
+            for i, line in enumerate(cmds):
+                r = rs.command(line)
+                dist["debugger_commands"] += 1
+                sess = {"program": text, "options": opts, "commands": cmds}
+                if r["exc"] and r["exc"] != "Budget":
+                    spec_failures.append({"what": "debugger command %r, given after control left the program, raised %s"
+                                                  % (line, r["exc"]), "session": sess, "at": i})
+                    break
+                if watched.bad:
+                    spec_failures.append({"what": "debugger command %r fetched program.code[%d]: outside the program of %d instructions"
+                                                  % (line, watched.bad[0], len(watched)), "session": sess, "at": i})
+                    break
+                bad = wf_snapshot(snapshot_vm(rs.shell.debugger.vm))
+                if bad:
+                    spec_failures.append({"what": "after debugger command %d %r the machine is ill-formed: %s" % (i, line, bad),
+                                          "session": sess, "at": i})
+                    break
+
+
 def known_replays(ctx, findings):
     """D9: `r12 = -0xabc` on the real shell (the witness of C02_debugger_assign_negative_refuted)."""
     import dbgcases as dc
@@ -217,6 +266,7 @@ def correspondence(ctx, model_available=True):
     # (d) debugger histories that write state: oracle on the real shell, and the session model
     import dbgprops as dp
     dsessions = debugger_histories(rng, 30 if quick else 400, spec_failures, dist)
+    after_the_end(spec_failures, dist)
     if model_available:
         dres = dp.correspondence("C02d", dsessions, True, check_history=False)
         disagreements += dres["disagreements"]
